@@ -83,6 +83,9 @@ class Cnl2asp:
             self.cnl_input = cnl_input.read()
 
     def parse_input(self):
+        # the signature table is process-wide: start every parse from an empty one, so that the result does not
+        # depend on what was compiled or checked before
+        SignatureManager.signatures = []
         with open(os.path.join(os.path.dirname(__file__), "grammar.lark"), "r") as grammar:
             cnl_parser = Lark(grammar.read(), propagate_positions=True)
             specification: SpecificationComponent = CNLTransformer().transform(cnl_parser.parse(self.cnl_input))
